@@ -236,20 +236,20 @@ func dumpAll(base string) (string, string) {
 	sort.Strings(names)
 	var sb strings.Builder
 	for _, n := range names {
+		// a failed open or scan rolls the transaction back; start another one for the remaining stores
+		if !tx.HasBegun() {
+			tx, err = infs.NewTransactionWithReplication(ctx, opts(base, sop.ForReading))
+			if err == nil {
+				err = tx.Begin(ctx)
+			}
+			if err != nil {
+				fmt.Fprintf(&sb, "ERR(re-begin: %v)", err)
+				return strings.TrimSpace(sb.String()), active
+			}
+		}
 		b, err := infs.OpenBtreeWithReplication[int, string](ctx, n, tx, nil)
 		if err != nil {
 			fmt.Fprintf(&sb, "%s:ERR(open: %v) ", n, err)
-			// a failed open rolls the transaction back; start another one for the remaining stores
-			if !tx.HasBegun() {
-				tx, err = infs.NewTransactionWithReplication(ctx, opts(base, sop.ForReading))
-				if err == nil {
-					err = tx.Begin(ctx)
-				}
-				if err != nil {
-					fmt.Fprintf(&sb, "ERR(re-begin: %v)", err)
-					return strings.TrimSpace(sb.String()), active
-				}
-			}
 			continue
 		}
 		si := b.GetStoreInfo()
